@@ -2,6 +2,7 @@ import Katib.Base.Hex
 import Katib.Drv.C11
 import Katib.Drv.Status
 import Katib.Drv.Sim
+import Katib.Oracle.Sim
 open Katib Katib.Drv
 
 /-- model output for one op line -/
@@ -25,9 +26,14 @@ def splitArrow (toks : List String) : List String × List String :=
 
 structure DrvState where
   sim : Katib.Ctl.Sim := {}
+  orc : OracleSt := {}
 
 def handleLine (st : DrvState) (line : String) : DrvState × String :=
   match tokens line with
+  | "ORACLE" :: prop :: "SIM" :: r =>
+    let (a, b) := splitArrow r
+    let (o', v) := handleSimOracle st.orc prop a b
+    ({ st with orc := o' }, v)
   | "ORACLE" :: r => let (a, b) := splitArrow r; (st, handleOracle a b)
   | "SIM" :: r => let (s', out) := handleSim st.sim r; ({ st with sim := s' }, out)
   | toks => (st, handle toks)
